@@ -1545,12 +1545,6 @@ skip_cpp_comment(int c) {
     CPPCommentBlock *comment;
 
     int line_number = get_line_number();
-    if (c == '\n') {
-      // We have to subtract one from the line number as we just fetched a
-      // newline.
-      --line_number;
-    }
-
     if (_last_cpp_comment && !_comments.empty() &&
         _comments.back()->_last_line >= line_number - 1) {
       // If the last non-whitespace character read was also part of a C++
